@@ -48,7 +48,52 @@ def garbage(t):
 
 # --------------------------------------------------------------------------------------------- CMDRequest
 
-def build_req(widths):
+_SRC = []
+
+
+def source_class():
+    """A clocked ready/valid character source (a py4hw Logic block, so the port is driven from inside the simulated design and
+    the simulator decides in which order it and the decoder are clocked).  A character is transferred on an edge where the
+    valid it drives and the ready it reads are both 1.  gaps[i] = idle cycles before character i is offered."""
+    if _SRC:
+        return _SRC[0]
+    import py4hw
+
+    class CharSource(py4hw.Logic):
+        def __init__(self, parent, name, text, gaps, ready, valid, c):
+            super().__init__(parent, name)
+            self.ready = self.addIn('ready', ready)
+            self.valid = self.addOut('valid', valid)
+            self.c = self.addOut('c', c)
+            self.text, self.gaps = text, gaps
+            self.pos = 0
+            self.offering = False
+            self.wait = gaps[0] if gaps else 0
+            self.t = 0
+
+        def clock(self):
+            self.t += 1
+            if self.offering and self.ready.get():
+                self.offering = False
+                self.pos += 1
+                self.wait = self.gaps[self.pos] if self.pos < len(self.gaps) else 0
+            if self.offering:
+                self.valid.prepare(1)
+            elif self.pos < len(self.text) and self.wait == 0:
+                self.valid.prepare(1)
+                self.c.prepare(ord(self.text[self.pos]))
+                self.offering = True
+            else:
+                self.valid.prepare(0)
+                self.c.prepare(garbage(self.t))
+                if self.wait > 0:
+                    self.wait -= 1
+
+    _SRC.append(CharSource)
+    return CharSource
+
+
+def build_req(widths, producer='python', text='', gaps=()):
     import py4hw
     from py4hw.emulation.HILWrapperUART import CMDRequest
     wi, wv, wo = widths
@@ -57,10 +102,16 @@ def build_req(widths):
              v_in=hw.wire('v_in', wv), index_out=hw.wire('index_out', wo), set_index_in=hw.wire('set_index_in'),
              set_v_in=hw.wire('set_v_in'), set_index_out=hw.wire('set_index_out'), clk_pulse=hw.wire('clk_pulse'),
              start_resp=hw.wire('start_resp'))
+    src = None
     with muted():
+        if producer == 'block_before':
+            src = source_class()(hw, 'src', text, list(gaps), s['ready'], s['valid'], s['c'])
         CMDRequest(hw, 'cmd_req', s['ready'], s['valid'], s['c'], s['index_in'], s['v_in'], s['index_out'], s['set_index_in'],
                    s['set_v_in'], s['set_index_out'], s['clk_pulse'], s['start_resp'])
+        if producer == 'block_after':        # the order createHILUART itself uses: cmd_req before the block that feeds it
+            src = source_class()(hw, 'src', text, list(gaps), s['ready'], s['valid'], s['c'])
         sim = hw.getSimulator()
+    s['src'] = src
     return hw, sim, s
 
 
@@ -116,7 +167,10 @@ def simulate_req(case):
     cmds = case['cmds']
     text, roles = stream_text(cmds, case['sep'])
     gaps = case['gaps']
-    hw, sim, s = build_req(widths)
+    producer = case.get('producer', 'python')
+    hw, sim, s = build_req(widths, producer, text, gaps)
+    if producer != 'python':
+        return _simulate_req_block(case, sim, s, text, roles)
     names = ('valid', 'ready', 'c') + STROBES + ('index_in', 'v_in', 'index_out')
     wires = [s[k] for k in names]
     tr = {k: [] for k in names}
@@ -160,6 +214,39 @@ def simulate_req(case):
     tr['cycles'] = len(tr['valid'])
     tr['text'] = text
     tr['roles'] = roles
+    tr['producer_transfers'] = pos
+    return tr
+
+
+def _simulate_req_block(case, sim, s, text, roles):
+    """same recording, the port driven by the clocked CharSource inside the design."""
+    names = ('valid', 'ready', 'c') + STROBES + ('index_in', 'v_in', 'index_out')
+    wires = [s[k] for k in names]
+    tr = {k: [] for k in names}
+    cols = [tr[k] for k in names]
+    src = s['src']
+    tail = 2 * (KMAX + 8) + 16
+    stall = None
+    t = 0
+    last, lastpos = 0, 0
+    with muted():
+        while True:
+            for col, w in zip(cols, wires):
+                col.append(w.get())
+            sim.clk(1)
+            if src.pos != lastpos:
+                lastpos, last = src.pos, t
+            elif src.pos < len(text) and t - last > REQ_STALL + max(case['gaps'] or [0]):
+                stall = dict(char_index=src.pos, offered_at=last, gave_up_at=t)
+                break
+            t += 1
+            if src.pos >= len(text) and t > last + tail:
+                break
+    tr['stall'] = stall
+    tr['cycles'] = len(tr['valid'])
+    tr['text'] = text
+    tr['roles'] = roles
+    tr['producer_transfers'] = src.pos
     return tr
 
 
@@ -182,12 +269,19 @@ def judge_req(tr, case):
     findings = []
     obs = dict(commands_judged=0, pulses={k: 0 for k in STROBES}, pulse_len={}, kinds={})
     cons = [t for t in range(n) if valid[t] and ready[t]]
-    # harness sanity: what was consumed is the stream prefix
-    for k, t in enumerate(cons):
-        if k >= len(text) or cc[t] != ord(text[k]):
-            findings.append(dict(clause='harness', kind='consumed_not_stream', relation='none', index=0, signal='c',
-                                 expected=text[:k + 1][-4:], observed=cc[t], what='consumed character %d is not the stream' % k))
-            return findings, obs
+    # ---- both sides of the character port agree on what was transferred: the handshakes visible at the cycle boundaries
+    #      (valid & ready before the edge) are the characters of the stream in order, and as many as the producer counted
+    seen = ''.join(chr(cc[t]) for t in cons)
+    if seen != text[:len(seen)] or len(cons) != tr.get('producer_transfers', len(cons)):
+        k = next((i for i in range(min(len(seen), len(text))) if seen[i] != text[i]), min(len(seen), len(text)))
+        j = roles[k][0] if k < len(roles) else len(cmds) - 1
+        rel = 'characters_skipped' if len(cons) < tr.get('producer_transfers', len(cons)) else 'other'
+        findings.append(dict(clause='handshake', kind='port_sides_disagree', relation=rel, index=j, signal='ready', cmd_kind=cmds[j][0],
+                             expected=text[max(0, k - 3):k + 3], observed=seen[max(0, k - 3):k + 3],
+                             what='the producer transferred %d characters, %d handshakes are visible at the cycle boundaries; first difference '
+                                  'at character %d: stream %r, taken by the decoder %r' % (tr.get('producer_transfers', len(cons)), len(cons), k,
+                                                                                         text[max(0, k - 3):k + 3], seen[max(0, k - 3):k + 3])))
+        return findings, obs
     first, term = {}, {}
     for k, t in enumerate(cons):
         j, role = roles[k]
@@ -293,7 +387,9 @@ def expand_req(k, seed, tier):
         gaps = [rnd.choice([0, 0, 1, 3]) for _ in text]
     else:
         gaps = [rnd.choice([0, 1, 2, 5, rnd.randrange(0, 12)]) for _ in text]
-    return dict(part='request', widths=list(WIDTHS[k % len(WIDTHS)]), cmds=cmds, sep=sep, gaps=gaps, gap_mode=['none', 'short', 'long'][gm])
+    producer = ['python', 'block_after', 'block_before', 'python', 'block_after', 'block_before', 'python'][k % 7]
+    return dict(part='request', widths=list(WIDTHS[k % len(WIDTHS)]), cmds=cmds, sep=sep, gaps=gaps, gap_mode=['none', 'short', 'long'][gm],
+                producer=producer)
 
 
 def run_req(run, case, agg):
@@ -320,13 +416,15 @@ def run_req(run, case, agg):
     for k, v in obs['kinds'].items():
         agg['kinds'][k] = agg['kinds'].get(k, 0) + v
     agg['chars'] += len(tr['text'])
+    pk = case.get('producer', 'python') + '/' + case['gap_mode']
+    agg['producers'][pk] = agg['producers'].get(pk, 0) + obs['commands_judged']
     agg['valid_low_cycles'] += tr['valid'].count(0)
     if tr['stall'] is not None:
         agg['stalls'].append(dict(stream=tr['text'][:40], **tr['stall']))
     for f in findings[:1]:
         key = 'c20_request_%s' % f['kind']
         fields = dict(part='request', clause=f['clause'], kind=f['kind'], relation=f['relation'], signal=f['signal'],
-                      cmd_kind=f.get('cmd_kind'))
+                      cmd_kind=f.get('cmd_kind'), producer=case.get('producer', 'python'))
         j = f['index']
         rc = dict(case)
         rc['cmds'] = case['cmds'][:j + 2]
@@ -334,7 +432,7 @@ def run_req(run, case, agg):
         rc['gaps'] = case['gaps'][:len(stream_text(rc['cmds'], rc['sep'])[0])]
         rc['stream'] = stream_text(rc['cmds'], rc['sep'])[0]
         run.violation(key, fields, rc, expected=f['expected'], observed=f['observed'],
-                      what='widths=%s gaps=%s: %s' % (case['widths'], case['gap_mode'], f['what']))
+                      what='widths=%s gaps=%s producer=%s: %s' % (case['widths'], case['gap_mode'], case.get('producer', 'python'), f['what']))
     return tr, findings, obs
 
 
@@ -384,11 +482,13 @@ def simulate_resp(case):
     G = case['maxgap']
     rb = case['ready_bits']
     hw, sim, s = build_resp()
-    tr = dict(start=[], ready=[], valid=[], v=[])
+    tr = dict(start=[], ready=[], valid=[], v=[], restarts=[])
     starts = []
     t = 0
     with muted():
-        for value, count, idle in items:
+        for item in items:
+            value, count, idle = item[:3]
+            hold = item[3] if len(item) > 3 and item[3] else ['held']
             for _ in range(idle):           # idle cycles with the previous value/size still on the wires
                 s['start'].put(0)
                 s['ready'].put(rb[t] if t < len(rb) else 1)
@@ -404,6 +504,14 @@ def simulate_resp(case):
             t0 = t
             while True:
                 s['start'].put(1 if t == t0 else 0)
+                if hold[0] == 'pulse_only' and t > t0:       # value and size are only there during the start pulse
+                    s['vin'].put((t * 0x9E3779B1 + 0x7F4A7C15) & 0xFFFFFFFF)
+                    s['size'].put(1 + (t * 7 + 3) % 32)
+                elif hold[0] == 'restart' and t == t0 + hold[1]:   # another request while this response is in progress
+                    s['start'].put(1)
+                    s['vin'].put(hold[2])
+                    s['size'].put(hold[3])
+                    tr['restarts'].append(t)
                 s['ready'].put(rb[t] if t < len(rb) else 1)
                 hs = s['valid'].get() & s['ready'].get()
                 for k in ('start', 'ready', 'valid', 'v'):
@@ -461,7 +569,8 @@ def judge_resp(tr, case):
         findings.append(dict(clause='quiet', kind='handshake_without_start', relation='none', index=0, expected='none', observed=hs[0],
                              what='a character is handshaken at cycle %d, before the first start_resp (%d)' % (hs[0], starts[0])))
         return findings, obs
-    for r, (value, count, idle) in enumerate(items):
+    for r, item in enumerate(items):
+        value, count, idle = item[:3]
         if r >= len(starts):
             break
         a = starts[r]
@@ -507,6 +616,7 @@ def expand_resp(k, seed, tier):
     G = [0, 1, 2, 3, 5, 9][(k // 5) % 6] if mode != 'alternate' else 1
     if mode == 'always':
         G = 0
+    holdmode = ['held', 'pulse_only', 'restart', 'mixed'][(k // 3) % 4]
     items = []
     total = 0
     for _ in range(8):
@@ -521,9 +631,17 @@ def expand_resp(k, seed, tier):
             count = rnd.randrange(9, 33)
             value = gen_value(rnd, 8)
         idle = rnd.choice([0, 0, 1, 2, rnd.randrange(0, 8)])
-        items.append([value, count, idle])
+        hm = holdmode if holdmode != 'mixed' else rnd.choice(['held', 'pulse_only', 'restart'])
+        if hm == 'pulse_only':
+            extra = ['pulse_only']
+        elif hm == 'restart':
+            c2 = rnd.randrange(1, 9)
+            extra = ['restart', rnd.randrange(1, 2 * count + 2), gen_value(rnd, c2), c2]
+        else:
+            extra = None
+        items.append([value, count, idle, extra])
         total += idle + resp_bound(count, G) + 12
-    return dict(part='response', items=items, mode=mode, maxgap=G, ready_bits=ready_bits(mode, G, rnd, total))
+    return dict(part='response', items=items, mode=mode, maxgap=G, hold=holdmode, ready_bits=ready_bits(mode, G, rnd, total))
 
 
 def run_resp(run, case, agg):
@@ -541,17 +659,23 @@ def run_resp(run, case, agg):
     run.count('response_handshakes', obs['handshakes'])
     agg['resp_max_frac_of_bound'] = max(agg['resp_max_frac_of_bound'], obs['max_cycles_over_bound'])
     agg['ready_low_cycles'] += tr['ready'].count(0)
-    for value, count, idle in case['items']:
-        run.nt(hash(('resp', value, count, case['mode'], case['maxgap'])))
+    agg['restarts'] += len(tr['restarts'])
+    for item in case['items']:
+        value, count, idle = item[:3]
+        hname = item[3][0] if len(item) > 3 and item[3] else 'held'
+        agg['holds'][hname] = agg['holds'].get(hname, 0) + 1
+        run.nt(hash(('resp', value, count, case['mode'], case['maxgap'], hname)))
         agg['counts'][str(count)] = agg['counts'].get(str(count), 0) + 1
     agg['resp_modes'][case['mode']] = agg['resp_modes'].get(case['mode'], 0) + obs['responses_judged']
     for f in findings[:1]:
-        value, count, idle = case['items'][f['index']]
+        it = case['items'][f['index']]
+        value, count, idle = it[:3]
         key = 'c20_response_%s' % f['kind']
         fields = dict(part='response', clause=f['clause'], kind=f['kind'], relation=f['relation'],
-                      count_class='1-8' if count <= 8 else '9-32', value_fits=value < (1 << (4 * count)), ready_mode=case['mode'])
+                      count_class='1-8' if count <= 8 else '9-32', value_fits=value < (1 << (4 * count)), ready_mode=case['mode'],
+                      input_hold=it[3][0] if len(it) > 3 and it[3] else 'held')
         run.violation(key, fields, _resp_case(case, f['index'] + 1), expected=f['expected'], observed=f['observed'],
-                      what='ready=%s: %s' % (case['mode'], f['what']))
+                      what='ready=%s inputs=%s: %s' % (case['mode'], it[3][0] if len(it) > 3 and it[3] else 'held', f['what']))
     return tr, findings, obs
 
 
@@ -573,14 +697,21 @@ def run_check(run, tier, seed, shard):
     run.assume('well-formed streams: commands in any order, 1-8 upper-case hex digits with leading zeros, K counts 0-40, and '
                'optionally the newline the library\'s own DUTProxy sends after each command; lower-case digits are never sent')
     run.assume('CMDResponse.size is the number of hex digits (the code comment; the wrapper feeds it the port width); counts 1-8 are '
-               'the property\'s domain, 9-32 (what the wrapper can request) are checked as zero-padded; vin/size stay stable from '
-               'start_resp until the response is complete; a value wider than the requested digits is sent as its low digits')
+               'the property\'s domain, 9-32 (what the wrapper can request) are checked as zero-padded; a value wider than the requested '
+               'digits is sent as its low digits')
+    run.assume('the value and digit count of a response are the ones on vin/size in the start_resp cycle (the code documents "sample '
+               'value / sample size" there): input-hold classes held (stable for the whole response), pulse_only (garbage from the next '
+               'cycle on) and restart (a second start_resp with other inputs while the response is in progress must not alter it; '
+               'whether that second request is served afterwards is not judged -- the unchanged block ignores it)')
+    run.assume('the character port of the decoder is driven three ways: from Python between clock edges, and by a clocked ready/valid '
+               'source block instantiated before resp. after the decoder (the simulator states that clocked blocks need no order); '
+               'both sides of the port must agree on which characters were transferred')
     run.assume('"whatever the consumer\'s pacing" is judged as bounded progress: ready schedules are oblivious with not-ready runs <= G '
                'and the "!" must be taken within (count+2)*2*(G+1)+4 cycles of start_resp (the block looks at ready twice per '
                'character, so the design-time bound (count+2)*(G+3) is too tight for G >= 2 and is not used)')
     nreq, nresp = (8000, 10000) if tier == 'quick' else (300000, 400000)
     deadline = time.time() + (420 if tier == 'quick' else 2400)
-    agg = dict(digits={}, pulses={}, pulse_len={}, kinds={}, chars=0, valid_low_cycles=0, stalls=[], counts={}, resp_modes={},
+    agg = dict(digits={}, pulses={}, pulse_len={}, kinds={}, producers={}, holds={}, restarts=0, chars=0, valid_low_cycles=0, stalls=[], counts={}, resp_modes={},
                resp_max_frac_of_bound=0.0, ready_low_cycles=0)
     skipped = 0
     for k in shard_slice(range(nreq), shard):
@@ -605,7 +736,7 @@ def run_check(run, tier, seed, shard):
         res = run_resp(run, case, agg)
         if res is not None and k % 131 == 0 and len(run.samples) < 8:
             tr, findings, obs = res
-            v, c, _ = case['items'][0]
+            v, c = case['items'][0][:2]
             run.sample(dict(part='response', ready_mode=case['mode'], max_not_ready_run=case['maxgap'], first_item=dict(value=hex(v), digits=c,
                             expected=expected_chars(v, c)), responses_judged=obs['responses_judged'], handshakes=obs['handshakes'],
                             cycles=tr['cycles']))
@@ -619,6 +750,9 @@ def run_check(run, tier, seed, shard):
     run.extra['request_commands_by_kind'] = agg['kinds']
     run.extra['request_digit_count_hist'] = agg['digits']
     run.extra['request_characters_sent'] = agg['chars']
+    run.extra['request_commands_by_producer_and_gap'] = agg['producers']
+    run.extra['response_by_input_hold'] = agg['holds']
+    run.extra['response_restart_pulses'] = agg['restarts']
     run.extra['request_valid_low_cycles'] = agg['valid_low_cycles']
     run.extra['response_digit_count_hist'] = agg['counts']
     run.extra['response_by_ready_mode'] = agg['resp_modes']
